@@ -12,3 +12,5 @@ import PptxModel.Props.C20
 import PptxModel.GenProps.C20
 import PptxModel.Props.C10
 import PptxModel.GenProps.C10
+import PptxModel.Props.C11
+import PptxModel.GenProps.C11
